@@ -72,19 +72,41 @@ Proof.
   apply memb_union.
 Qed.
 
+Lemma cty_eqb_eq : forall a b, cty_eqb a b = true -> a = b.
+Proof.
+  induction a as [| |n ts IH|ts IH] using cty_ind2; intros [| |m us|us] H; cbn [cty_eqb] in H; try discriminate; try reflexivity.
+  - apply andb_true_iff in H. destruct H as [Hn Hall]. apply oname_eqb_eq in Hn. subst m. f_equal.
+    apply all2b_Forall2 in Hall. revert us Hall. induction IH as [|t ts Ht _ IHts]; intros us Hall; inversion Hall; subst.
+    + reflexivity.
+    + f_equal; [apply Ht; assumption|apply IHts; assumption].
+  - f_equal. apply all2b_Forall2 in H. revert us H. induction IH as [|t ts Ht _ IHts]; intros us Hall; inversion Hall; subst.
+    + reflexivity.
+    + f_equal; [apply Ht; assumption|apply IHts; assumption].
+Qed.
+
+Lemma dedup_In l : forall u, In u (dedup l) <-> In u l.
+Proof.
+  induction l as [|t l IH]; intros u; cbn [dedup]; [reflexivity|]. split.
+  - intros [<-|H]; [left; reflexivity|]. apply filter_In in H. right. apply (proj1 (IH u)). apply H.
+  - intros [<-|H]; [left; reflexivity|].
+    destruct (cty_eqb t u) eqn:E.
+    + left. apply cty_eqb_eq. exact E.
+    + right. apply filter_In. split; [apply (proj2 (IH u)); exact H|rewrite E; reflexivity].
+Qed.
+
 Lemma memb_mk_union v ts :
   memb v (mk_union ts) = true <-> exists t, In t ts /\ memb v t = true.
 Proof.
   unfold mk_union.
-  assert (Hflat : (exists u, In u (flat_map variants ts) /\ memb v u = true) <->
+  assert (Hflat : (exists u, In u (dedup (flat_map Core.variants ts)) /\ memb v u = true) <->
                   (exists t, In t ts /\ memb v t = true)).
   { split.
-    - intros [u [Hin Hu]]. apply in_flat_map in Hin. destruct Hin as [t [Ht Hut]].
+    - intros [u [Hin Hu]]. apply (proj1 (dedup_In _ _)) in Hin. apply in_flat_map in Hin. destruct Hin as [t [Ht Hut]].
       exists t. split; [exact Ht|]. apply memb_variants. exists u. auto.
     - intros [t [Ht Hv]]. apply memb_variants in Hv. destruct Hv as [u [Hu Hm]].
-      exists u. split; [|exact Hm]. apply in_flat_map. exists t. auto. }
+      exists u. split; [|exact Hm]. apply (proj2 (dedup_In _ _)). apply in_flat_map. exists t. auto. }
   rewrite <- Hflat.
-  destruct (flat_map variants ts) as [|u [|u2 l]].
+  destruct (dedup (flat_map Core.variants ts)) as [|u [|u2 l]].
   - rewrite memb_union. reflexivity.
   - split; [intros H; exists u; split; [left; reflexivity|exact H]|intros [u' [[<-|[]] H]]; exact H].
   - rewrite memb_union. reflexivity.
@@ -351,6 +373,7 @@ Section Soundness.
         destruct m as [|m0 ms].
         * eapply IHb; [exact Hsp|exact Hi|exact He].
         * destruct (infer fns k (pat_binds p (m0 :: ms) ((x, mk_union (m0 :: ms)) :: G)) b) as [tb|]; [|discriminate].
+          destruct r as [|r0 rs]; [destruct Hsp as [u [[] _]]|].
           eapply IHb; [exact Hsp|exact Hi|exact He].
   Qed.
 
@@ -470,6 +493,7 @@ Section Soundness.
       + destruct m as [|m0 ms].
         * eapply IHb; [exact Hsp|exact Hi].
         * destruct (infer fns k (pat_binds p (m0 :: ms) ((x, mk_union (m0 :: ms)) :: G)) b) as [tb|]; [|discriminate].
+          destruct r as [|r0 rs]; [destruct Hsp as [u [[] _]]|].
           eapply IHb; [exact Hsp|exact Hi].
   Qed.
 
